@@ -128,6 +128,14 @@ Theorem C43_uboundfix_preserves : forall ps p s s',
 Proof. exact uboundfix_preserves. Qed.
 Print Assumptions C43_uboundfix_preserves.
 
+(** the extent written into the declaration of dummy [a], dimension [d], is the bound of a comparison that
+    tests [ubound(a, d)] - whatever else is combined in the same conditional, in whatever order *)
+Theorem C43_ubound_extent_of_own_check : forall conds a d b,
+  ub_pick conds a d = Some b ->
+  exists cs c, In cs conds /\ In c cs /\ lower (uc_arr c) = lower a /\ uc_dim c = d /\ uc_bound c = b.
+Proof. exact ub_pick_sound. Qed.
+Print Assumptions C43_ubound_extent_of_own_check.
+
 Theorem C43_uboundfix_needs_quiet :
   run_k ub_ex (st_of 2 3) = Some 100%Z /\ run_k (ub_fix ub_ex) (st_of 2 3) = Some 2%Z.
 Proof. exact ub_firing_check_changes_result. Qed.
